@@ -504,6 +504,50 @@ theorem iso_falls_as_inv_r (x y nu mu b_e b_s pi t : K) (ht : t ≠ 0) (hr : x *
       isoStress_1_2, isoStress_2_0, isoStress_2_1, isoStress_2_2, isoStrain_0_0, isoStrain_0_1, isoStrain_0_2,
       isoStrain_1_0, isoStrain_1_1, isoStrain_1_2, isoStrain_2_0, isoStrain_2_1, isoStrain_2_2, e] <;>
     (try field_simp)
+
+/-- the isotropic closed form in other units: in-plane coordinates and Burgers components times `t` (another length unit), shear
+    modulus times `c` (another stiffness unit): strain unchanged, stress and the energy coefficients times `c`. -/
+theorem iso_unit_covariant (x y nu mu b_e b_s pi t c : K) (ht : t ≠ 0) (hr : x * x + y * y ≠ 0) (i j : Fin 3) :
+    isoStrain (t * x) (t * y) nu (t * b_e) (t * b_s) pi i j = isoStrain x y nu b_e b_s pi i j
+    ∧ isoStress (t * x) (t * y) nu (c * mu) (t * b_e) (t * b_s) pi i j = c * isoStress x y nu mu b_e b_s pi i j
+    ∧ isoKe (c * mu) nu = c * isoKe mu nu ∧ isoKs (c * mu) nu = c * isoKs mu nu := by
+  have hr' : x ^ 2 + y ^ 2 ≠ 0 := by simpa [pow_two] using hr
+  have e : (t * x) * (t * x) + (t * y) * (t * y) = t * t * (x * x + y * y) := by ring
+  refine ⟨?_, ?_, ?_, ?_⟩
+  · fin_cases i <;> fin_cases j <;>
+      simp [isoStrain, isoStrain_0_0, isoStrain_0_1, isoStrain_0_2,
+        isoStrain_1_0, isoStrain_1_1, isoStrain_1_2, isoStrain_2_0, isoStrain_2_1, isoStrain_2_2, e] <;>
+      (try field_simp)
+  · fin_cases i <;> fin_cases j <;>
+      simp [isoStress, isoStress_0_0, isoStress_0_1, isoStress_0_2, isoStress_1_0, isoStress_1_1,
+        isoStress_1_2, isoStress_2_0, isoStress_2_1, isoStress_2_2, e] <;>
+      (try field_simp)
+  · simp only [isoKe, Nat.cast_ofNat, Nat.cast_one]; ring
+  · simp only [isoKs]
+
+/-- isotropic displacement in another length unit: with `log(t²r²) = log r² + λ` at both points (the same `λ = 2 ln t`),
+    the three frame components of `u(t x₁) − u(t x₂)` for the Burgers vector `t b` are `t` times those of `u(x₁) − u(x₂)`. -/
+theorem iso_length_unit_displacement (log : K → K) (x1 y1 x2 y2 th1 th2 nu b_e b_s pi t lam : K) (ht : t ≠ 0)
+    (h1 : x1 * x1 + y1 * y1 ≠ 0) (h2 : x2 * x2 + y2 * y2 ≠ 0) (hnu : 1 - nu ≠ 0) (hpi : pi ≠ 0)
+    (hl1 : log (t * x1 * (t * x1) + t * y1 * (t * y1)) = log (x1 * x1 + y1 * y1) + lam)
+    (hl2 : log (t * x2 * (t * x2) + t * y2 * (t * y2)) = log (x2 * x2 + y2 * y2) + lam) :
+    isoDisp_m log (t * x1) (t * y1) nu (t * b_e) (t * b_s) pi th1 - isoDisp_m log (t * x2) (t * y2) nu (t * b_e) (t * b_s) pi th2
+        = t * (isoDisp_m log x1 y1 nu b_e b_s pi th1 - isoDisp_m log x2 y2 nu b_e b_s pi th2)
+    ∧ isoDisp_n log (t * x1) (t * y1) nu (t * b_e) (t * b_s) pi th1 - isoDisp_n log (t * x2) (t * y2) nu (t * b_e) (t * b_s) pi th2
+        = t * (isoDisp_n log x1 y1 nu b_e b_s pi th1 - isoDisp_n log x2 y2 nu b_e b_s pi th2)
+    ∧ isoDisp_ξ log (t * x1) (t * y1) nu (t * b_e) (t * b_s) pi th1 - isoDisp_ξ log (t * x2) (t * y2) nu (t * b_e) (t * b_s) pi th2
+        = t * (isoDisp_ξ log x1 y1 nu b_e b_s pi th1 - isoDisp_ξ log x2 y2 nu b_e b_s pi th2) := by
+  have e1 : t * x1 * (t * x1) + t * y1 * (t * y1) = t * t * (x1 * x1 + y1 * y1) := by ring
+  have e2 : t * x2 * (t * x2) + t * y2 * (t * y2) = t * t * (x2 * x2 + y2 * y2) := by ring
+  refine ⟨?_, ?_, ?_⟩
+  · simp only [isoDisp_m, Nat.cast_ofNat, Nat.cast_one, e1, e2]
+    field_simp
+  · simp only [isoDisp_n, Nat.cast_ofNat, Nat.cast_one, hl1, hl2]
+    simp only [e1, e2]
+    field_simp
+    ring
+  · simp only [isoDisp_ξ, Nat.cast_ofNat, Nat.cast_one]
+    ring
 end iso2
 
 section iso3
